@@ -40,7 +40,9 @@ type propSpec struct {
 	backed []string
 }
 
-func backedBy(id string, rules ...string) { registry[id].backed = append(registry[id].backed, rules...) }
+func backedBy(id string, rules ...string) {
+	registry[id].backed = append(registry[id].backed, rules...)
+}
 
 // soften applies propSpec.backed to a finished report.
 func soften(spec *propSpec, rep *Report) {
